@@ -51,5 +51,7 @@ func checkC12(c *Ctx, r *Report) {
 	// the Data Matrix ECC step indexes its codeword buffer by the symbol table's counts (data + error codewords, blocks x
 	// check words per block): the table rules decide that those agree
 	checkDMTables(c, r)
+	// the Code 128 writer's value computation indexes its contents by position: folded over contents and forced code sets
+	checkCode128RoundTrip(c, r)
 	r.Note("not decided: termination of the Data Matrix mode loop (needs a ranking argument over data-dependent rewinds); the size clause (matrix never smaller than the symbol / the request) is decided by the rendering terms under C14")
 }
